@@ -78,6 +78,16 @@ func Keys(t *rapid.T, minN, maxN int) [][]byte {
 	case "huge":
 		add(bytes.Repeat([]byte{'z'}, 4096))
 		add(append(bytes.Repeat([]byte{'z'}, 4095), 'a'))
+		if rapid.Bool().Draw(t, "key_beyond_one_log_record") {
+			// the embedded API has no key limit of its own (4096 is the service's):
+			// the log lets a key span fragments, the table format stores key
+			// lengths in 16 bits. One key longer than a physical log record.
+			k := bytes.Repeat([]byte{'y'}, rapid.SampledFrom([]int{32756, 32769, 40000, 65000}).Draw(t, "longkeylen"))
+			if !seen[string(k)] {
+				seen[string(k)] = true
+				out = append(out, k)
+			}
+		}
 		for tries := 0; len(out) < n && tries < 10*n; tries++ {
 			add([]byte(rapid.StringMatching(`[a-e]{1,3}`).Draw(t, "k")))
 		}
